@@ -168,6 +168,24 @@ def nested_instance(rng):
     return inst
 
 
+def nested_accurate_instance(rng):
+    """A measured sub-clique inside a measured clique, the small one answered far more accurately than the big one and close to
+    uniform: uniform tables already fit the accurate measurement, so an estimator that loses it (and chases the noisy one) ends
+    up fitting worse than its uniform start."""
+    inst = E.gen_instance(rng, nattr=3, max_meas=0, zeros_prob=0.0, allow_empty=True, sizes=[4, 4, 2])
+    a = inst["order"]
+    n = len(inst["x"])
+    inst["x"] = [30.0 + rng.choice([-1.0, 0.0, 1.0]) for _ in range(n)]            # nearly uniform data, total about 960
+    big, small = (a[0], a[1]), (a[rng.choice([0, 1])],)
+    for g, noise in ((big, 40.0), (small, 0.2)):
+        Q = E.qmat("identity", math.prod(inst["sz"][x] for x in g))
+        y = Q @ E.true_marginal(inst, list(g)).reshape(-1) + np.array([rng.gauss(0, noise) for _ in range(Q.shape[0])])
+        inst["meas"].append({"proj": list(g), "kind": "identity", "noise": noise, "y": [float(v) for v in y]})
+    if rng.random() < 0.5:
+        inst["meas"].reverse()
+    return inst
+
+
 def disjoint_instance(rng):
     inst = E.gen_instance(rng, nattr=4, max_meas=0, zeros_prob=0.0, allow_empty=True, sizes=[rng.choice([2, 3]) for _ in range(4)])
     a = inst["order"]
@@ -215,6 +233,8 @@ def run(ctx, canary=False):
             second = rng.random() < 0.5
         elif k % 8 == 0:
             inst, mode, oracle, iters = nested_instance(rng), "given", "convex", 200
+        elif k % 8 == 1:
+            inst, mode, iters = nested_accurate_instance(rng), "given", 200
         else:
             inst = E.gen_instance(rng, nattr=rng.choice([3, 4]), max_meas=4, zeros_prob=0.0, allow_empty=False,
                                   kinds=["identity", "none", "twice", "total", "id+total", "prefix"])
